@@ -204,7 +204,13 @@ class C07(Property):
         stepped = dict(renumber, muts=[{"target": 0, "op": "delslice3", "sl": [None, None, 2]},
                                        {"target": 0, "op": "append", "v": {"s": "z"}}])
         negpop = dict(renumber, muts=[{"target": 0, "op": "pop", "i": 1, "neg": True}])
-        return [joined_in_dict, renumber, stepped, negpop]
+        S = lambda name: {"t": "leaf", "name": name, "opt": False, "k": 0}
+        overlap = {"schema": {"t": "dict", "name": None, "opt": False, "mode": "dense", "fields": [      # KF-C07-a
+            {"t": "dict", "name": "a_", "opt": False, "mode": "dense", "fields": [S("b")]},
+            {"t": "dict", "name": "a", "opt": False, "mode": "dense", "fields": [S("_b")]}]},
+            "kinds": kinds, "sep": "__", "value": {"d": [["a_", {"d": [["b", {"s": "1"}]]}], ["a", {"d": [["_b", {"s": "2"}]]}]]},
+            "muts": []}
+        return [joined_in_dict, renumber, stepped, negpop, overlap]
 
     def generate(self, rng, n, tier):
         for _ in range(n):
@@ -298,9 +304,14 @@ class C07(Property):
                 fails.append({"clause": "joined-opaque", "at": path_names(e), "expected": [list(p) for p in own],
                               "observed": [list(p) for p in mine]})
                 break
-        # uniqueness of keys except among the members of one Array / MultiValue
+        # uniqueness of keys except among the members of one Array / MultiValue — for EVERY separator; a
+        # separator that overlaps with the names makes two different paths join to one key (KF-C07-a, the
+        # flatten-side face of KF-C01-a), which is filed only when the same tree has unique keys under a
+        # separator that occurs in no name
         names = fl.schema_names(schema)
-        if fl.sep_safe(sep, names):
+        fresh = "\ue001"
+
+        def first_dup(sp):
             seen = {}
             for e, s in fl.walk_elements(el, schema):
                 if not e.flattenable:
@@ -308,16 +319,28 @@ class C07(Property):
                 # elements beneath a non-flattenable-children node are not emitted
                 if any(not p.children_flattenable for p in e.parents):
                     continue
-                key = e.flattened_name(sep)
+                key = e.flattened_name(sp)
                 parent = e.parent
                 owner = id(parent) if isinstance(parent, flatland.Array) and not isinstance(parent, flatland.JoinedString) else id(e)
-                if key in seen and seen[key] != owner:
-                    fails.append({"clause": "keys-unique", "key": key})
-                    break
-                seen.setdefault(key, owner)
+                if key in seen and seen[key][0] != owner:
+                    return key, seen[key][1], path_names(e)
+                seen.setdefault(key, (owner, path_names(e)))
+            return None
+
+        dup = first_dup(sep)
+        if dup:
+            fails.append({"clause": "keys-unique", "key": dup[0], "paths": [dup[1], dup[2]],
+                          "sep_overlaps": not fl.sep_safe(sep, names, nd_rule=False),
+                          "unique_under_fresh_sep": first_dup(fresh) is None})
         return fails
 
     def classify(self, case, failure):
+        # KF-C07-a predicts: the separator overlaps with the names (decided from the schema alone), the two
+        # elements sit on DIFFERENT name paths, and the very same tree has unique keys once the separator
+        # is one that occurs in no name — so a key that loses a path component is still reported
+        if (failure.get("clause") == "keys-unique" and failure.get("sep_overlaps")
+                and failure.get("unique_under_fresh_sep") and failure["paths"][0] != failure["paths"][1]):
+            return "KF-C07-a"
         return None
 
     def nontrivial(self, case, obs):
